@@ -197,6 +197,7 @@ func c18ClaimsPair(c *choice.Ctx, st *Stats, build func() psatoken.IClaims, labe
 
 // otherActivity exercises the library on objects unrelated to the one under observation.
 func otherActivity() {
+	pollute(11) // stock-factory claims changed through their pointers
 	cl := c02Claims()
 	k := fixtures.Get("ES256", 2)
 	for _, a := range []*refmodel.Claims{cl[3], cl[1], cl[0]} {
